@@ -18,6 +18,8 @@ fn usage() -> ! {
 }
 
 fn main() {
+    // before any simulation runs (plans may run baseline sessions): panics are captured, deliberate ones ignored
+    amiquip_simrt::install_panic_hook(std::env::var("SIM_PANIC_PRINT").is_ok());
     let args: Vec<String> = std::env::args().collect();
     if args.len() < 3 {
         usage();
